@@ -121,6 +121,9 @@ impl Sim {
             event_log: vec![],
         };
         sim.cov.runs = 1;
+        if enabled.iter().filter(|b| **b).count() == 1 {
+            sim.cov.only = enabled.iter().position(|b| *b);
+        }
         sim.do_instantiate();
         sim
     }
